@@ -21,6 +21,14 @@ SCOPING (decisions taken while making the check quiet on the unchanged tree)
 * UPDATE (opcode 5) is not generated, neither as query (is_response documents that the
   question is not compared for updates) nor as decoy (different section grammar).
 * IPv6 flowinfo / scope-id are always 0 in scripted source addresses.
+* "The returned message is the parse of exactly the datagram/frame octets" compares id,
+  flags, question (octet-exact) and the *set* of RRs per section: identical RRs inside one
+  datagram merge (an rrset is a set) -- first thorough run flagged that; oracle over-reach,
+  fixed in the oracle, and the generators no longer emit duplicate RDATA.
+* A would-block that escapes to the caller, a wait in the wrong direction, a wait without a
+  preceding would-block and a deadline that is not handed down unchanged are reported as
+  violations (clauses wouldblock / io-contract): with real sockets they are hangs or lost
+  deadlines, i.e. "an expired deadline is an error" would not hold.
 * D19 (genuine defect, reproduced standalone): dns.asyncquery.receive_udp/receive_tcp pass
   continue_on_error=ignore_errors to from_wire, so with ignore_errors=True a malformed
   datagram whose header and (partial) question match is RETURNED (with .errors set) where
